@@ -249,6 +249,22 @@ impl Gen {
         }
     }
 
+    /// short rules over the small inventory whose input and output mix segments, `$`, `%` and wildcards in every order and
+    /// with unequal lengths: the shapes whose index arithmetic is decided at the edges of a word
+    pub fn edge_rule(&mut self) -> String {
+        const IN: &[&str] = &["a", "d", "s", "t", "i", "n", "$", "$", "[]", "C", "V", "%", "a:[+long]", "[-syll]"];
+        const OUT: &[&str] = &["e", "o", "k", "$", "$", "[+voice]", "[+nasal]", "e:[+long]", "[+long]", "[-long]", "[+stress]"];
+        let ni = 1 + self.r(3);
+        let input: Vec<&str> = (0..ni).map(|_| IN[self.r(IN.len())]).collect();
+        let out = match self.r(8) {
+            0 => "*".to_string(),
+            1 => "&".to_string(),
+            _ => { let no = 1 + self.r(3); (0..no).map(|_| OUT[self.r(OUT.len())]).collect::<Vec<_>>().join(" ") }
+        };
+        let env = match self.r(6) { 0 => " / _ #", 1 => " / # _", 2 => " / _ $", 3 => " / V _", 4 => " | _ a", _ => "" };
+        format!("{} > {}{}", input.join(" "), out, env)
+    }
+
     pub fn rules(&mut self, p: Profile, n: usize) -> Vec<String> { (0..n).map(|_| self.rule(p)).collect() }
 
     /// split a rule list into groups at random (possibly with empty groups)
